@@ -4,7 +4,7 @@
      sort_      : r.sort()                         (the model sorts with isort)
      floor_mul_ : np.intp(np.floor(r[j] * (n-j)))  (the model: idx_Q / idx_F). *)
 From Coq Require Import ZArith List Bool Arith Lia.
-From QE Require Import Base.Num Gen.Kernels Gen.Kernels2 Gen.Kernels3 Base.PivotTie C18.Model.
+From QE Require Import Base.Num Gen.Kernels Gen.Kernels2 Gen.Kernels3 Base.GenLemmas C18.Model.
 Import ListNotations.
 
 Section Tie.
